@@ -725,6 +725,87 @@ def recv_during_rekey(role, rng):
         pair.close()
 
 
+def nowait_request_during_rekey(role, initiator):
+    """A user thread calls `global_request(kind, wait=False)` (fire and forget — also what keepalives are) while a
+    re-exchange is held open, started by the subject or by the peer: the request must be parked and go out after the
+    subject's NEWKEYS."""
+    ga, gb = L.gate_socket(), L.gate_socket()
+    ga.link(gb)
+    pair = L.Pair(role, "Transport", True, socks=(ga, gb))
+    sub, peer = pair.subject, pair.peer
+    sub_gate, peer_gate = (gb, ga) if role == "server" else (ga, gb)
+    out = {"role": role, "initiator": initiator}
+    try:
+        tap = L.Tap(sub)
+        sub.clear_to_send_timeout = 4.0
+        if not pair.barrier():
+            raise InfraError("session not usable before the re-exchange")
+        mark = len(tap.tx)
+        if initiator == "sub":
+            sub_gate.close_gate()                 # the peer's answer waits: the subject stays between KEXINIT and NEWKEYS
+            sub._send_kex_init()
+        else:
+            peer_gate.close_gate()                # the peer cannot read the subject's kex messages: same window
+            peer._send_kex_init()
+            L.wait_until(lambda: (sub.in_kex and any(r[0] == 20 for r in tap.tx[mark:])) or not sub.is_alive(), 30,
+                         "the subject to answer the peer's KEXINIT")
+        entered = threading.Event()
+        orig_sum = sub._send_user_message
+
+        def send_user_message(m):
+            entered.set()
+            return orig_sum(m)
+
+        sub._send_user_message = send_user_message
+        excs = []
+
+        def user():
+            try:
+                sub.global_request("pv-nowait@verif", wait=False)
+            except Exception as e:
+                excs.append(repr(e))
+
+        th = threading.Thread(target=user, daemon=True)
+        th.start()
+        t0 = time.time()
+        while not (entered.is_set() or any(r[0] == 80 for r in tap.tx[mark:]) or not th.is_alive()):
+            if time.time() - t0 > 20:
+                raise InfraError("the request was neither parked nor written")
+            time.sleep(0.002)
+        out["parked_at_the_gate"] = bool(entered.is_set() and not any(r[0] == 80 for r in tap.tx[mark:]))
+        (sub_gate if initiator == "sub" else peer_gate).gate.set()
+
+        def settled():
+            return (not sub.is_alive() or not peer.is_alive()) or (
+                not sub.in_kex and not peer.in_kex and sub.clear_to_send.is_set() and peer.clear_to_send.is_set()
+                and any(r[0] == 21 for r in tap.tx[mark:]))
+
+        t0 = time.time()
+        while not (settled() and not th.is_alive()) and time.time() - t0 < 12:
+            time.sleep(0.01)
+        for t in (sub, peer):
+            if not t.is_active():
+                t.join(10)
+        types = [r[0] for r in tap.tx[mark:]]
+        i20 = types.index(20) if 20 in types else len(types)
+        window = []
+        for t in types[i20 + 1:]:
+            if t == 21:
+                break
+            window.append(t)
+        out["window"] = window
+        out["after_newkeys"] = types[types.index(21) + 1:] if 21 in types else []
+        out["completed"] = bool(21 in types and sub.is_active() and peer.is_active() and settled())
+        out["user_exc"] = excs
+        out["sub_exc"] = repr(sub.saved_exception)
+        out["peer_exc"] = repr(L.root_exc(peer.saved_exception)) if peer.saved_exception is not None else "None"
+        return out
+    finally:
+        sub_gate.gate.set()
+        peer_gate.gate.set()
+        pair.close()
+
+
 def run(ctx):
     L.quiet_logging()
     L.stub_gss()
@@ -910,6 +991,23 @@ def run(ctx):
                      "subject %s (%s) peer %s" % (o["sub_exc"], o["sub_site"], o["peer_exc"]))
         elif not o["delivered"]:
             ctx.fail("in-flight-message-lost:received-bytes-trigger", o, "channel data not delivered intact")
+
+    # ---------------- fire-and-forget global requests from a user thread while the exchange is open
+    for role in ("server", "client"):
+        for ini in ("sub", "peer"):
+            o = nowait_request_during_rekey(role, ini)
+            ctx.case(("nowait-request", role, ini), True)
+            ctx.dist("nowait-request:%s-initiated" % ini)
+            ctx.sample(o, limit=28)
+            offending = [t for t in o["window"] if t >= 50]
+            if offending:
+                ctx.fail("user-message-inside-kex-window:global_request(wait=False)", o,
+                         "types %r written between KEXINIT and NEWKEYS by a user thread; peer: %s" % (offending, o["peer_exc"]))
+            elif not o["completed"] or o["user_exc"]:
+                ctx.fail("re-exchange-fails:global_request(wait=False)", o,
+                         "subject %s peer %s user %r" % (o["sub_exc"], o["peer_exc"], o["user_exc"]))
+            elif 80 not in o["after_newkeys"]:
+                ctx.fail("queued-user-message-lost:global_request(wait=False)", o, "not written after NEWKEYS: %r" % (o["after_newkeys"],))
 
     # ---------------- channel data read by the application while the exchange is open: the credit must survive
     for role in ("server", "client"):
